@@ -25,7 +25,9 @@ func init() {
 			"for every k (all k<=700, sampled above) a fresh layer4.Connection preloaded with the k-byte prefix over a counting conn is evaluated through MatcherSet.Match. " +
 			"oracle: P1 no network read during Match; P2 MatchingBytes and a full read afterwards equal the prefix; P3 two evaluations on one connection and one on a fresh connection agree; " +
 			"P4 (stream matchers) NO/ERR at k stays NO/ERR for all longer prefixes; P5 (stream matchers) YES at k implies MORE or YES at every shorter prefix. " +
-			"non-trivial = the stream's verdict sequence contains at least one MORE or YES; distinct = hash(target, stream)",
+			"non-trivial = the stream's verdict sequence contains at least one MORE or YES; distinct = hash(target, stream). " +
+			"route level: a route list of a proxy_protocol route (non-terminal) followed by 3-8 shipped stream matchers in a shuffled order, each ending in a recording sink; a stream (optional PROXY v1/v2 header + well-formed " +
+			"message + trailing bytes) is delivered whole and in 2-4 fragments (separate prefetch rounds): the same route must consume it and its handler must read the same bytes",
 		Assumptions: []string{
 			"time-dependent filters are pinned (clock via the wrap-time placeholder, OpenVPN seeds without timestamps)",
 			"datagram matchers (wireguard, quic, dns/UDP, openvpn/UDP) are held to P1-P3 only",
@@ -33,9 +35,11 @@ func init() {
 		MinEvals: 20000,
 		Plan: func(tier string) []fw.ChildSpec {
 			if tier == "thorough" {
-				return []fw.ChildSpec{{Name: "lattice", Mode: "lattice", Shards: 16, Timeout: 60 * time.Minute}}
+				return []fw.ChildSpec{{Name: "lattice", Mode: "lattice", Shards: 16, Timeout: 60 * time.Minute},
+					{Name: "routes", Mode: "routes", Shards: 8, Timeout: 60 * time.Minute}}
 			}
-			return []fw.ChildSpec{{Name: "lattice", Mode: "lattice", Shards: 12, Timeout: 10 * time.Minute}}
+			return []fw.ChildSpec{{Name: "lattice", Mode: "lattice", Shards: 12, Timeout: 10 * time.Minute},
+				{Name: "routes", Mode: "routes", Shards: 4, Timeout: 10 * time.Minute}}
 		},
 		Run:    run,
 		Replay: replay,
@@ -55,6 +59,10 @@ type Witness struct {
 }
 
 func run(c *fw.Ctx) {
+	if c.Mode == "routes" {
+		runRoutes(c)
+		return
+	}
 	hmods.Quiet(c.OutDir + "/caddyhome")
 	nStreams := c.Pick(250, 5000)
 	idx := 0
@@ -216,6 +224,9 @@ func compress(seq []byte) string {
 }
 
 func replay(c *fw.Ctx, raw json.RawMessage) {
+	if replayRoutes(c, raw) {
+		return
+	}
 	var w Witness
 	if err := json.Unmarshal(raw, &w); err != nil {
 		fmt.Println("replay:", err)
